@@ -29,6 +29,31 @@ CHECKS['C16'] = dict(
    text='Seven families: all strings <= 5 (quick) / 6 (thorough) over a 27-character adversarial alphabet (termination within len+2 calls, tiling by last_substr, token agreement), all integer spellings (sign x radix prefix x digit bodies + boundary spellings around +-2^127), reals, string bodies, bit-string bodies, comments, and print->read of ints, all bit-strings of 0..=12 bits and nested vectors/maps.',
    note='Reference tokenizer written from README + pinned lexer tests; typographic quotes and non-ASCII whitespace are undocumented (only generic obligations checked there); strings longer than the bound not covered.',
    ref='DESIGN.md §4 C16')
+CHECKS['C02'] = dict(
+   technique='explicit-state search over {rnext,next} on the real interpreter from the end of every forward run, projected machine dump (reverse log included) as state key, run to closure and compared with the recorded forward trace',
+   text='For every program of the control-flow grammar and of a repertoire grammar (stack shufflers, builders, foreach over vectors/maps, locals, variables) up to 3 (quick) / 4 (thorough) nodes plus ~100 hand-written repertoire programs (late binding, binary reads, recursion, re-initialised locals, meta blocks) the forward history S0..Sn is recorded and the state graph under rnext/next is explored to closure; every reached state must equal the recorded S_i. Because the key contains the reverse log, closure at n+1 states covers all rewind/replay interleavings of any length. Opcode and reverse-step kinds exercised are listed; a missing one is a machinery error.',
+   note='Machine state = verif_dump minus instruction meter, printed output and code (late-binding cache). A failing step is not part of the stepped history; histories capped at 80 steps.',
+   ref='DESIGN.md §4 C02')
+CHECKS['C05'] = dict(
+   technique='exhaustive product sweep width x byte order x signedness x bit offset x junk x value set on the real codecs, oracle = round trip / std byte layouts / offset independence',
+   text='Widths 1..=128 x {LE,BE} x value set (all 2^w values for w <= 12 quick / 20 thorough, boundary and single-bit sets above) x field offsets 0..7,8,13 x trailing junk x junk polarity at the Rust API; the language pack/read words over the same product on thinner value sets; f32 over sign x exponent x 64 mantissas (quick) / all 2^32 patterns (thorough), f64 class set, all offsets.',
+   note='The bit layout of little-endian fields of non-byte widths is left open (only round trip and offset independence demanded); unsigned 128-bit reads may report IntegerOverflow (pinned).',
+   ref='DESIGN.md §4 C05')
+CHECKS['C07'] = dict(
+   technique='exhaustive enumeration of all field lists up to a length bound over a typed field alphabet x all emit groupings, pack-then-parse on the real interpreter',
+   text='All records of <= 2 fields over a 174-element field alphabet and 3 fields over a 43-element subset (quick) / <= 3 over the full and 4 over a reduced alphabet (thorough), byte-order switches included; each packed three ways (>bitstr, bitstr-append, emit under all 2^(k-1) groupings with output interception) and parsed back: length = sum of widths, values equal (bit-exact floats), remain = 0, output/output-length agree across groupings. Every field kind must occur at every alignment 0..7 (vacuity guard).',
+   note='Records above 4 fields not covered; unsigned 128-bit fields excluded (pinned overflow); NaN payloads not compared.',
+   ref='DESIGN.md §4 C07')
+CHECKS['C17'] = dict(
+   technique='exhaustive product of failing-program templates x all whitespace/CRLF/tab/multibyte/comment prefixes up to a length bound, oracle computed from the generated text',
+   text='129 failing-program templates (unknown word / run-time failure at top level, inside definitions, loops, meta blocks, injected text, included files, call depth 1-3, later sources on the same interpreter) x every layout string of <= 5 (quick) / 6 (thorough) atoms over {space, tab, LF, CRLF, multibyte word, line comment}; reported source name, token byte range, line, column (characters), quoted line and pretty_error text must equal the values computed from the text.',
+   note='Culprit tokens spanning lines, lone CR, and lexer parse-error sub-ranges are not covered.',
+   ref='DESIGN.md §4 C17')
+CHECKS['C18'] = dict(
+   technique='exhaustive enumeration of all byte strings up to a length bound x presentations x codecs, and of all short texts over valid+invalid alphabets, on the real words',
+   text='All byte strings of length 0..2 (+ all 2^24 three-byte strings in thorough, structured longer ones) x 23 presentations (aligned, every bit offset of a junk buffer, vectors, strings) x 4 codecs round trip; the RFC/Z85 standard text must decode; every text of <= 5/6 characters over an alphabet of valid and invalid characters x 4 decoders must give nil or a bit-string, a foreign character must give nil; acceptance equals that of >bitstr for a 48-value mixed-type alphabet.',
+   note='Encoder text is not compared with a golden rendering (only decode(standard text) and round trip); inputs longer than 40 bytes not covered.',
+   ref='DESIGN.md §4 C18')
 
 NOT_BUILT = {}
 
